@@ -34,6 +34,8 @@ def to_scenario(name, labels, with_faults, repeat=0):
         elif k == "cancel":
             ended.add(i)
             steps.append({"a": "cancel", "i": i})
+        elif k in ("stall", "resume") and with_faults:
+            steps.append({"a": k})      # the peer stops / resumes reading (the handle loop blocks in its request write)
         elif k == "fault" and with_faults:
             steps.append({"a": "fault", "k": len(steps)})
     sc = {"name": name, "steps": steps}
@@ -105,6 +107,10 @@ def _run(pid, tier, classes, with_faults):
         if ra.violation is None:
             raise vlib.Inconclusive("ClientImpl as-is: no violation (vacuity guard failed)")
         ck.cov["tlc_runs"].append({"cfg": "ClientImpl_asis.cfg", "expected_violation": ra.violation})
+        rn = tlc("client", "ClientImpl", "ClientImpl_nooffer.cfg", workers=8, timeout=600)
+        if rn.violation is None:
+            raise vlib.Inconclusive("ClientImpl nooffer: no violation (vacuity guard failed)")
+        ck.cov["tlc_runs"].append({"cfg": "ClientImpl_nooffer.cfg", "expected_violation": rn.violation})
         rc = tlc("client", "ClientImpl", "ClientImpl_ctxclose.cfg", workers=8, timeout=600)
         if rc.violation is None:
             raise vlib.Inconclusive("ClientImpl ctxclose: no violation (vacuity guard failed)")
